@@ -105,6 +105,8 @@ impl TailsWriter for TailsFileWriter {
         impl TempFile<'_> {
             pub fn rename(self, target: &Path) -> Result<(), Error> {
                 let path = std::mem::ManuallyDrop::new(self).0;
+                #[cfg(anoncreds_verif)]
+                crate::verif::failpoint::hit("tails:rename")?;
                 std::fs::rename(path, target)
                     .map_err(|e| err_msg!("Error moving tails temp file {path:?}: {e}"))
             }
@@ -119,6 +121,8 @@ impl TailsWriter for TailsFileWriter {
 
         let temp_name = format!("{:020}.tmp", random::<u64>());
         let temp_path = self.root_path.join(temp_name);
+        #[cfg(anoncreds_verif)]
+        crate::verif::failpoint::hit("tails:create")?;
         let file = File::options()
             .read(true)
             .write(true)
@@ -129,13 +133,19 @@ impl TailsWriter for TailsFileWriter {
         let mut buf = BufWriter::new(file);
         let mut hasher = Sha256::default();
         let version = &[0u8, 2u8];
+        #[cfg(anoncreds_verif)]
+        crate::verif::failpoint::hit("tails:version")?;
         buf.write_all(version)?;
         hasher.update(version);
         while let Some(tail) = generator.try_next()? {
             let tail_bytes = tail.to_bytes()?;
+            #[cfg(anoncreds_verif)]
+            crate::verif::failpoint::hit("tails:tail")?;
             buf.write_all(&tail_bytes)?;
             hasher.update(&tail_bytes);
         }
+        #[cfg(anoncreds_verif)]
+        crate::verif::failpoint::hit("tails:flush")?;
         let mut file = buf
             .into_inner()
             .map_err(|e| err_msg!("Error flushing output file: {e}"))?;
